@@ -25,6 +25,11 @@ Numerical policy
   explained variance within 1e-9 of ``ev_threshold``) and kernel density
   estimates with zero bandwidth (a projected window without spread) are outside
   the specification: ``Undefined`` is raised and the caller closes the branch.
+  "Zero" always means: not distinguishable from the rounding noise of the data,
+  i.e. below ``SPREAD_TOL`` times the *magnitude of the data* (largest absolute
+  value fed to the PCA, which carries the unit of measurement and the level of
+  the stream) -- never an absolute number, so that the specification is the same
+  function of the stream in any unit (1e-12 ... 1e12 are explored).
 * The Page-Hinkley alarm ``ph_difference > threshold * mean`` is evaluated in
   exact rational arithmetic on the score that was fed; the decision goes through
   the Decider with an *absolute* margin (scores live in [0, 1]), exact zeros
@@ -41,6 +46,7 @@ EDGE_TOL = 1e-9  # relative to the width of the support
 GAP_TOL = 1e-6  # relative eigenvalue gap below which components are not identifiable
 EV_TOL = 1e-9
 PH_TOL = 1e-9
+SPREAD_TOL = 1e-9  # spread below this fraction of the data's magnitude = no spread
 
 
 class Undefined(Exception):
@@ -132,15 +138,16 @@ def intersection_scores(ref_counts, test_counts, n):
     return out
 
 
-def kde_density(values):
+def kde_density(values, mag=0.0):
     """Epanechnikov kernel density estimate of ``values`` evaluated at the values
-    themselves, bandwidth 1.06 * s * n^(-1/5) (s = sample standard deviation)."""
+    themselves, bandwidth 1.06 * s * n^(-1/5) (s = sample standard deviation).
+    ``mag``: magnitude of the data the values were computed from (unit / level)."""
     n = len(values)
     m = sum(values) / n
     var = sum((v - m) ** 2 for v in values) / (n - 1)
     s = math.sqrt(var)
-    scale = max(1.0, max(abs(v) for v in values))
-    if not (s > 1e-9 * scale):
+    scale = max(mag, max(abs(v) for v in values))
+    if not (s > SPREAD_TOL * scale):
         raise Undefined("kernel bandwidth is zero (projected window has no spread)")
     h = 1.06 * s * n ** (-1.0 / 5.0)
     dens = []
@@ -226,18 +233,21 @@ class PCACDModel:
             self.mu = R.mean(axis=0)
             sd = R.std(axis=0)
             # a constant column cannot be standardised; it is left as is (it has
-            # no loading on any retained component anyway)
-            sd[sd <= 1e-9 * np.maximum(1.0, np.abs(self.mu))] = 1.0
+            # no loading on any retained component anyway).  Constant = spread
+            # not distinguishable from rounding at the column's own magnitude.
+            sd[sd <= SPREAD_TOL * np.abs(R).max(axis=0)] = 1.0
             self.sd = sd
         else:
             self.mu = np.zeros(R.shape[1])
             self.sd = np.ones(R.shape[1])
         Rs = self._scale(self.ref)
         Ts = self._scale(self.test)
+        # magnitude of what the PCA sees (unit of measurement and level)
+        self.mag = float(max(np.abs(Rs).max(), np.abs(Ts).max()))
 
         full = PCA().fit(Rs)
         lam = full.explained_variance_
-        if not (lam[0] > 1e-18) or not np.all(np.isfinite(lam)):
+        if not (lam[0] > (SPREAD_TOL * self.mag) ** 2) or not np.all(np.isfinite(lam)):
             raise Undefined("reference window has no variance")
         ratio = lam / lam.sum()
         cum = np.cumsum(ratio)
@@ -269,11 +279,11 @@ class PCACDModel:
             self.lo.append(lo)
             self.hi.append(hi)
             if self.metric == "intersection":
-                if not (hi - lo > 1e-9 * max(1.0, abs(lo), abs(hi))):
+                if not (hi - lo > SPREAD_TOL * max(self.mag, abs(lo), abs(hi))):
                     raise Undefined("retained component without spread")
                 self.ref_density.append(admissible_counts(col_r, lo, hi, self.bins))
             else:
-                self.ref_density.append(kde_density(col_r))
+                self.ref_density.append(kde_density(col_r, self.mag))
 
     def _project(self, rows):
         P = (np.asarray(rows, dtype=float).reshape(-1, len(self.center)) - self.center) @ self.comps.T
@@ -339,7 +349,7 @@ class PCACDModel:
                 tc = admissible_counts(col_t, self.lo[i], self.hi[i], self.bins)
                 per.append([float(s) for s in intersection_scores(self.ref_density[i], tc, self.w)])
             else:
-                per.append([js_distance(self.ref_density[i], kde_density(col_t))])
+                per.append([js_distance(self.ref_density[i], kde_density(col_t, self.mag))])
         straight = max(p[0] for p in per)
         admissible = []
         for choice in itertools.product(*per):
